@@ -102,10 +102,14 @@ def assemble(unit, vacuity=False):
         if pos is None:
             raise Broken("no body found after rewriting %s" % fn["id"])
         contract = fn.get("contract", "").rstrip()
-        if vacuity:
-            contract = _falsify(contract)
         attrs = "".join("    %s\n" % a for a in fn.get("attrs", []))
-        text = attrs + "    " + text[:pos].rstrip() + "\n" + contract + "\n    " + text[pos:]
+        sig, body_text = text[:pos].rstrip(), text[pos:]
+        text = attrs + "    " + sig + "\n" + contract + "\n    " + body_text
+        if vacuity:
+            # a second copy of the function, renamed, with `false` added to its postcondition; it calls the
+            # ORIGINAL (unfalsified) callees, so only its own precondition / the assumed contracts on its path are probed
+            sig_v, n = re.subn(r"\bfn\s+(\w+)", lambda m: "fn %s__vac" % m.group(1), sig, count=1)
+            text += "\n" + attrs + "    " + sig_v + "\n" + _falsify(contract) + "\n    " + body_text
         into = fn.get("into", "")
         if into not in blocks:
             blocks[into] = []
@@ -174,7 +178,7 @@ def vacuity_probe(unit):
             breakdown[fb["function"].split("::", 1)[-1]] = fb
     vacuous, probed = [], 0
     for fid, fi in finfo.items():
-        fb = breakdown.get(fi["verus_name"])
+        fb = breakdown.get(fi["verus_name"] + "__vac")
         if fb is None:
             continue
         probed += 1
